@@ -167,6 +167,14 @@ func (fc *FnCtx) doCallInner(fr *Frame, st *State, instr ssa.Instruction, c *ssa
 		fc.usedModels[mname] = true
 		return m(fc, fr, st, instr, c, args, rt)
 	}
+	ex := fc.eng.externs[mname+instSuffix(callee)]
+	if ex == nil {
+		ex = fc.eng.externs[mname]
+	}
+	if ex != nil {
+		fc.assumedSpecs["extern "+mname+instSuffix(callee)] = true
+		return fc.applyContract(fr, st, instr, ex, callee, callee.Signature, bindings, args, rt, pos)
+	}
 	if isNoopCallee(callee) {
 		return havocRes("noop")
 	}
@@ -221,6 +229,39 @@ func (fc *FnCtx) havocPointees(fr *Frame, st *State, c *ssa.CallCommon, args []V
 	if len(ws) > 0 {
 		fc.havocSet(st, ws)
 	}
+}
+
+// obsEq: two header values agree on every observer (the only way code can tell headers apart).
+func obsEq(a, b Term) Term {
+	return tAnd(
+		tEq(app(SInt, "height", a), app(SInt, "height", b)),
+		tEq(app(SInt, "htime", a), app(SInt, "htime", b)),
+		tEq(app(SStr, "chainID", a), app(SStr, "chainID", b)),
+		tEq(app(SBytes, "hash", a), app(SBytes, "hash", b)),
+		tEq(app(SBytes, "lastHash", a), app(SBytes, "lastHash", b)),
+		tEq(app(SBool, "isZero", a), app(SBool, "isZero", b)))
+}
+
+// instSuffix: "[Str,Hdr]" for a method of an instantiated generic type (sorts of the type arguments),
+// so that external contracts can be given per instantiation (lru.TwoQueueCache[string,H] vs [uint64,Hash]).
+func instSuffix(fn *ssa.Function) string {
+	recv := fn.Signature.Recv()
+	if recv == nil {
+		return ""
+	}
+	t := recv.Type()
+	if p, ok := t.(*types.Pointer); ok {
+		t = p.Elem()
+	}
+	n, ok := unalias(t).(*types.Named)
+	if !ok || n.TypeArgs() == nil || n.TypeArgs().Len() == 0 {
+		return ""
+	}
+	var parts []string
+	for i := 0; i < n.TypeArgs().Len(); i++ {
+		parts = append(parts, sortOf(n.TypeArgs().At(i)))
+	}
+	return "[" + strings.Join(parts, ",") + "]"
 }
 
 // forceAll adds the fields of a struct to a write set regardless of the package filter used for
@@ -555,6 +596,15 @@ func (fc *FnCtx) doInvoke(fr *Frame, st *State, instr ssa.Instruction, c *ssa.Ca
 			}
 			res := havocRes("hdr_" + method)
 			// history predicates: validated(h) / decodedFrom(h, bytes) hold once the call returned nil
+			if tv, ok := res.(*TupleVal); ok && method == "MarshalBinary" && len(tv.Elems) == 2 {
+				if bt, ok := tv.Elems[0].(Term); ok && bt.Sort == SBytes {
+					if et, ok := tv.Elems[1].(Term); ok && et.Sort == SErr {
+						fc.decls.fun("decHdr", []string{SBytes}, SHdr)
+						fc.assume(st, tImp(tEq(et, T(SErr, "nilErr")), obsEq(app(SHdr, "decHdr", bt), h)))
+						fc.assumptions["A-codec: UnmarshalBinary(b) yields a header observationally equal to decHdr(b), and decHdr(MarshalBinary(h)) is observationally equal to h"] = true
+					}
+				}
+			}
 			if rt2, ok := res.(Term); ok && rt2.Sort == SErr {
 				switch method {
 				case "Validate":
@@ -566,6 +616,10 @@ func (fc *FnCtx) doInvoke(fr *Frame, st *State, instr ssa.Instruction, c *ssa.Ca
 						if b, ok := args[0].(Term); ok && b.Sort == SBytes {
 							fc.decls.fun("sp_decodedFrom", []string{SHdr, SBytes}, SBool)
 							fc.assume(st, tImp(tEq(rt2, T(SErr, "nilErr")), app(SBool, "sp_decodedFrom", h, b)))
+							// A-codec: decoding is a function of the bytes (decHdr), up to the observers
+							fc.decls.fun("decHdr", []string{SBytes}, SHdr)
+							fc.assume(st, tImp(tEq(rt2, T(SErr, "nilErr")), obsEq(h, app(SHdr, "decHdr", b))))
+							fc.assumptions["A-codec: UnmarshalBinary(b) yields a header observationally equal to decHdr(b), and decHdr(MarshalBinary(h)) is observationally equal to h"] = true
 							fc.assumptions["history predicate decodedFrom(h, b): h.UnmarshalBinary(b) returned nil (defined at the call's exit, used positively only)"] = true
 						}
 					}
